@@ -52,6 +52,30 @@ CHECKS = {
             'vf.ref.core_packets is a transcription of the protocol '
             'documentation (DESIGN.md Appendix A).',
             'DESIGN.md §3 C07'),
+    'C11': ('exploration',
+            'history monitor at the server boundary: serverbound frame '
+            'sequence vs. executable echo model (sequence equality); callback '
+            'recorder on the client',
+            'Real Connection in play state against the independent server for '
+            'every supported version >= 47 with generated histories (1..600 '
+            'packets, bursts/fragments, compression off/0/64): echo sequence '
+            'equality gives exactly-once, order and no-loss; delivered packets,'
+            ' spawned flag, exit/exception callbacks; fault class: peer closes '
+            'right after the disconnect packet.',
+            'release protocols use the independent codec; non-release versions'
+            ' take ids/layouts from the tree (behaviour judged independently).',
+            'DESIGN.md §3 C11'),
+    'C15': ('fault_enumeration',
+            'crash-point enumeration with a byte-budget server; FileProxy '
+            'empty-read counter with failpoint; termination watchdog',
+            'For 5 reference conversations the server stops after every byte '
+            'offset k (thorough: 3 versions x graceful/abrupt): reads after '
+            'end-of-stream <= 3, threads terminate, error reported or '
+            'documented status fallback, delivered packets = prefix of frames '
+            'wholly sent.',
+            'bound of 3 empty reads stands for bounded I/O steps; watchdog '
+            'firing = inconclusive.',
+            'DESIGN.md §3 C15'),
     'C02': ('exploration',
             'runtime monitor: recording sink + counting stream + step budget '
             'around the real codecs; independent wire-type oracle; prefix rule',
